@@ -888,3 +888,74 @@ func c15ParameterSpelling(c *Ctx) {
 			"parseFormat maps spellings of the same option to different values ("+strings.Join(parts, "; ")+"): the value also names the output file, so the response depends on how the parameter is spelled", map[string]any{"values": parts})
 	}
 }
+
+// writtenPkgVars: the package-level variables of pk and, for those written (assigned, stored through, incremented or
+// address-taken) inside a function body, the position of one such write.
+func writtenPkgVars(pk *packages.Package) ([]*types.Var, map[types.Object]token.Pos) {
+	info := pk.TypesInfo
+	scope := pk.Types.Scope()
+	var pkgVars []*types.Var
+	for _, n := range scope.Names() {
+		if v, ok := scope.Lookup(n).(*types.Var); ok {
+			pkgVars = append(pkgVars, v)
+		}
+	}
+	isPkgVar := func(o types.Object) bool {
+		v, ok := o.(*types.Var)
+		return ok && v.Pkg() == pk.Types && v.Parent() == scope
+	}
+	rootIdent := func(e ast.Expr) *ast.Ident {
+		for {
+			switch x := ast.Unparen(e).(type) {
+			case *ast.Ident:
+				return x
+			case *ast.SelectorExpr:
+				e = x.X
+			case *ast.IndexExpr:
+				e = x.X
+			case *ast.StarExpr:
+				e = x.X
+			default:
+				return nil
+			}
+		}
+	}
+	written := map[types.Object]token.Pos{}
+	for _, f := range pk.Syntax {
+		for _, d := range f.Decls {
+			fd, ok := d.(*ast.FuncDecl)
+			if !ok || fd.Body == nil {
+				continue
+			}
+			ast.Inspect(fd.Body, func(n ast.Node) bool {
+				switch x := n.(type) {
+				case *ast.AssignStmt:
+					for _, l := range x.Lhs {
+						if id := rootIdent(l); id != nil && isPkgVar(info.ObjectOf(id)) {
+							written[info.ObjectOf(id)] = x.Pos()
+						}
+					}
+				case *ast.IncDecStmt:
+					if id := rootIdent(x.X); id != nil && isPkgVar(info.ObjectOf(id)) {
+						written[info.ObjectOf(id)] = x.Pos()
+					}
+				case *ast.UnaryExpr:
+					if x.Op == token.AND {
+						if id := rootIdent(x.X); id != nil && isPkgVar(info.ObjectOf(id)) {
+							written[info.ObjectOf(id)] = x.Pos()
+						}
+					}
+				case *ast.CallExpr:
+					// delete(m, k) / clear(m) on a package-level map
+					if id, ok := x.Fun.(*ast.Ident); ok && (id.Name == "delete" || id.Name == "clear") && len(x.Args) > 0 {
+						if rid := rootIdent(x.Args[0]); rid != nil && isPkgVar(info.ObjectOf(rid)) {
+							written[info.ObjectOf(rid)] = x.Pos()
+						}
+					}
+				}
+				return true
+			})
+		}
+	}
+	return pkgVars, written
+}
